@@ -71,6 +71,10 @@ func renderIncludeName(n string) string {
 
 // writeProject renders every file of the project into dir (plus a sub directory and a
 // decoy outside the project root that must never be touched).
+// projEOL is the line-break convention the files of a project are written with (all files alike). Line numbers do
+// not depend on it; c07-replay rotates it.
+var projEOL = "\n"
+
 func writeProject(base string, content map[string][]Tok, prependJSIGHT bool) (*project, error) {
 	p := &project{dir: filepath.Join(base, "proj"), files: map[string]rendered{}}
 	if err := os.MkdirAll(filepath.Join(p.dir, "sub"), 0o755); err != nil {
@@ -99,6 +103,9 @@ func writeProject(base string, content map[string][]Tok, prependJSIGHT bool) (*p
 			for i := range rd.tokLine {
 				rd.tokLine[i]++
 			}
+		}
+		if projEOL != "\n" {
+			rd.text = strings.ReplaceAll(rd.text, "\n", projEOL)
 		}
 		p.files[name] = rd
 		if err := os.WriteFile(filepath.Join(p.dir, name), []byte(rd.text), 0o644); err != nil {
@@ -199,6 +206,8 @@ func traceVerdict(p *project, got []string, truth, quirk []trItem) string {
 	return "wrong"
 }
 
+var selftestEOL bool
+
 var spellingSeed = func() int {
 	n := 0
 	fmt.Sscan(os.Getenv("VERIF_SEED"), &n)
@@ -234,6 +243,7 @@ func c07Replay(args []string) *Result {
 		}
 		if selftest {
 			spellingSeed = 4 - res.Cases%4 // canonical spelling: every comparison applies
+			selftestEOL = true
 		}
 		c07One(res, base, &cs, distinct)
 		if selftest && res.Cases >= 1500 {
@@ -258,6 +268,12 @@ func shapeKey(cs *c07Case) string {
 }
 
 func c07One(res *Result, base string, cs *c07Case, distinct map[string]struct{}) {
+	// the line-break convention of the files is an environment choice as well: LF, CRLF, CR in turn
+	projEOL = []string{"\n", "\r\n", "\r"}[((res.Cases+spellingSeed)/4)%3]
+	if selftestEOL {
+		projEOL = "\n"
+	}
+	defer func() { projEOL = "\n" }()
 	p, err := writeProject(base, cs.Content, false)
 	if err != nil {
 		res.Error = err.Error()
@@ -267,7 +283,7 @@ func c07One(res *Result, base string, cs *c07Case, distinct map[string]struct{})
 	for n, rd := range p.files {
 		files[n] = rd.text
 	}
-	replay := map[string]any{"kind": "c07", "case": cs, "files": files}
+	replay := map[string]any{"kind": "c07", "case": cs, "files": files, "eol": projEOL}
 	nInc := 0
 	for _, tt := range cs.Content {
 		for _, t := range tt {
@@ -472,15 +488,18 @@ func locationTruthful(je *jerr.JApiError) bool {
 	if idx == len(data) {
 		return true // the position of end of file: the code reports line 0 / the last line as quote
 	}
-	// line endings: the code counts the first convention it meets; generated files use LF only
+	// line breaks: LF, CRLF or a lone CR (the files of one project use one convention)
 	line, col := 1, 1
 	ls := 0
 	for i := 0; i < idx; i++ {
-		if data[i] == '\n' {
+		switch {
+		case data[i] == '\n', data[i] == '\r' && (i+1 >= len(data) || data[i+1] != '\n'):
 			line++
 			col = 1
 			ls = i + 1
-		} else {
+		case data[i] == '\r':
+			// first byte of CRLF
+		default:
 			col++
 		}
 	}
